@@ -332,6 +332,38 @@ func runC02(res *hx.Result, rng *hx.Rng, tier string, outdir string) {
 		res.Count(fmt.Sprintf("limit-%s", b.kind), true)
 		res.Dist("kind:limit-sized " + b.kind)
 	}
+	// directed: several opaque struct/tuple values side by side in one list (a reader that reuses a
+	// buffer between values shows up only when an earlier value is still held), and opaque lists
+	// of zero-width elements with a non-zero count
+	for k := 0; k < 12; k++ {
+		l := &dv{kind: "L["}
+		for e := 0; e < 2+rng.Intn(3); e++ {
+			var t *wg.Ty
+			if k%2 == 0 {
+				t = wg.Struct("P", []string{"a", "b"}, wg.Scalar("i"), wg.Scalar("s"))
+			} else {
+				t = wg.GenTy(rng, wg.GenOpts{MaxDepth: 2, Scalars: "iIsbl", KeyScalar: "sI", MaxWidth: 3}, 0)
+				if t.K == wg.KScalar {
+					t = wg.Tuple(t, wg.Scalar("s"))
+				}
+			}
+			tv := wg.GenVal(rng, t, 3)
+			l.l = append(l.l, &dv{kind: "O", sig: t.Sig(), b: tv.Enc(), t: t, tv: tv})
+		}
+		boundary = append(boundary, l)
+	}
+	for _, zs := range []string{"[v]", "[()]", "(i[v]s)<S,a,b,c>", "{i()}"} {
+		var data []byte
+		switch zs {
+		case "(i[v]s)<S,a,b,c>":
+			data = []byte{7, 0, 0, 0, 3, 0, 0, 0, 1, 0, 0, 0, 'x'}
+		case "{i()}":
+			data = []byte{2, 0, 0, 0, 1, 0, 0, 0, 2, 0, 0, 0}
+		default:
+			data = []byte{3, 0, 0, 0}
+		}
+		boundary = append(boundary, &dv{kind: "O", sig: zs, b: data, t: wg.Scalar("v")})
+	}
 	for i := 0; i < n+len(boundary); i++ {
 		var d *dv
 		if i < len(boundary) {
